@@ -23,6 +23,7 @@ class T:
     shape: Optional[tuple] = None  # optional names of ghost ints the dims equal
 
 
+OBJ = T("obj")          # opaque Python object (no symbolic value)
 INT = T("int")          # numba int64 scalar (i64 obligations on arithmetic)
 PYINT = T("pyint")      # unbounded python int
 BOOL = T("bool")
@@ -70,6 +71,17 @@ class Loop:
     ghost_pre: list = field(default_factory=list)   # ghost statements executed at loop entry (before inv-init)
     ghost_end: list = field(default_factory=list)   # ghost statements executed at the end of each iteration
     lemmas: list = field(default_factory=list)      # lemma applications offered to inv-pres / exit
+    assume: list = field(default_factory=list)      # clauses *assumed* at the loop head (listed as assumptions)
+
+
+@dataclass
+class Summary:
+    """Assumed effect of a statement the engine does not model (a call into moptipy/numpy/...):
+    the statement is *not* executed; the listed variables are re-bound to fresh values of the
+    given types and the clauses are assumed.  Every summary is an assumption and is listed as such."""
+    binds: dict = field(default_factory=dict)
+    assume: list = field(default_factory=list)
+    note: str = ""
 
 
 @dataclass
@@ -81,22 +93,27 @@ class SpecFn:
     recursive: bool = False
     ptypes: Optional[list] = None  # for recursive ones: "int" | "arr1" | "arr2" per parameter
     ast: Optional[ast.AST] = None
+    pyimpl: Optional[Callable] = None   # concrete implementation of an uninterpreted spec function
 
     def __post_init__(self):
-        self.ast = ast.parse(self.body.strip(), mode="eval").body
+        self.ast = ast.parse(self.body.strip(), mode="eval").body if self.body is not None else None
 
 
 SPECS: dict = {}
 
 
-def spec(sig: str, body: str, ret: str = "int", ptypes=None):
+def spec(sig: str, body, ret: str = "int", ptypes=None, pyimpl=None):
     """Declare a spec function.  `sig` is e.g. "box(p, k, W, H)".
     Non-recursive spec functions are inlined; recursive ones (that mention
     their own name) become uninterpreted functions unfolded on demand."""
     name, _, rest = sig.partition("(")
     name = name.strip()
     params = [p.strip() for p in rest.rstrip(") ").split(",") if p.strip()]
-    sf = SpecFn(name, params, body, ret, False, ptypes)
+    sf = SpecFn(name, params, body, ret, False, ptypes, None, pyimpl)
+    if body is None:      # uninterpreted: only (assumed or proved) lemmas speak about it
+        sf.recursive = True
+        SPECS[name] = sf
+        return sf
     sf.recursive = any(isinstance(n, ast.Call) and isinstance(n.func, ast.Name) and n.func.id == name
                        for n in ast.walk(sf.ast))
     if sf.recursive and ptypes is None:
@@ -117,15 +134,20 @@ class Lemma:
     base: str = "0"
     uses: list = field(default_factory=list)  # other lemma applications allowed in the proof: "name(args)"
     note: str = ""
+    assumed: bool = False        # an axiom: not proved here (mathematical lemma proved elsewhere, e.g. Lean) -> listed
 
 
 LEMMAS: dict = {}
 
 
-def lemma(name, params, hyps, concl, induct=None, base="0", uses=(), note=""):
-    lm = Lemma(name, params, list(hyps), concl, induct, base, list(uses), note)
+def lemma(name, params, hyps, concl, induct=None, base="0", uses=(), note="", assumed=False):
+    lm = Lemma(name, params, list(hyps), concl, induct, base, list(uses), note, assumed)
     LEMMAS[name] = lm
     return lm
+
+
+def axiom(name, params, hyps, concl, note):
+    return lemma(name, params, hyps, concl, note=note, assumed=True)
 
 
 @dataclass
@@ -146,7 +168,10 @@ class Contract:
     asserts: dict = field(default_factory=dict)   # "after <stmt pattern> #k" -> [Clause]  (refinement assertions)
     ghost_code: dict = field(default_factory=dict)  # "after <stmt pattern> #k" -> ["ghost stmt", ...]
     branch_iff: dict = field(default_factory=dict)  # "if#k" -> Clause: branch taken exactly under the condition
-    lemmas_at: dict = field(default_factory=dict)   # "post" / "after ..." -> ["lemma(args)"]
+    lemmas_at: dict = field(default_factory=dict)   # "entry" / "post" / "after ..." -> ["lemma(args)"]
+    ghost_results: dict = field(default_factory=dict)  # ghost locals mentioned by ensures: name -> T (existential for callers)
+    summaries: dict = field(default_factory=dict)   # "<stmt pattern> #k" -> Summary (assumed effect of an unmodelled statement)
+    split: list = field(default_factory=list)       # "if#k": keep the two branch states as separate paths (no merge)
     must_fail: list = field(default_factory=list)
     i64: bool = True                        # emit int64 overflow obligations
     arith_props: str = ""                   # tags for i64/range obligations (default: props)
